@@ -33,6 +33,8 @@ func generalValues() []*V {
 	return []*V{
 		nil, Nul(), S("a"), S("ab"), S("AB"), S("é"), S(""), N("0"), N("12"), S("12"), B(true),
 		A(), A(N("1"), N("2")), O(), O(F("x", S("a"))), S("k"), S(kelvin), S("ba"), S(kelvin + "b"), S("bab"),
+		// containers holding strings that need escaping (their byte length is that of the encoded text)
+		O(F("a", S("x\ny"))), A(S("q\"r")),
 	}
 }
 
